@@ -73,6 +73,10 @@ def run_cli(text, args, keep=False, missing_input=False):
     try:
         inp = os.path.join(d, "in.cif")
         outp = os.path.join(d, "out.cif")
+        if args.get("_inplace") == "same":
+            outp = inp                                  # edit the file in place
+        elif args.get("_inplace") == "alias":
+            outp = os.path.join(d, ".", "in.cif")       # the same file under another spelling of its path
         if not missing_input:
             with open(inp, "w") as f:
                 f.write(text)
@@ -221,6 +225,11 @@ def cli_cases(ctx):
     cases.append(("hand", t4, {"category": "atom_site", "copy_from": "label_asym_id"}, False))  # incomplete mode
     cases.append(("hand", t4, {"category": "atom_site", "copy_from": "label_asym_id", "copy_to": "new_item"}, False))
     cases.append(("missing-input", t4, {"category": "atom_site", "copy_from": "label_asym_id", "copy_to": "auth_asym_id"}, True))
+    # output path = input path (in-place edit), literally and under another spelling
+    for how in ("same", "alias"):
+        cases.append(("in-place", t4, {"category": "atom_site", "copy_from": "label_asym_id", "copy_to": "auth_asym_id", "_inplace": how}, False))
+        cases.append(("in-place", t4, {"category": "atom_site", "replace": "auth_asym_id", "values": "ABCD", "_inplace": how}, False))
+        cases.append(("in-place", t4, {"category": "nope", "copy_from": "label_asym_id", "copy_to": "auth_asym_id", "_inplace": how}, False))
     corp = [(n, t) for n, t in g6.corpus() if t.strip()]
     corp.sort(key=lambda nt: len(nt[1]))
     for n, t in corp[: ctx.pick(3, len(corp))]:
@@ -236,7 +245,10 @@ def cli_cases(ctx):
             v = req["values"] if req["values"] is not None else g6.DEFAULT_VALUES
             args = {"category": req["category"], "replace": req["col"], "values": v}
         # argparse: an option value that starts with '-' is passed as --opt=value (run_cli does that)
-        cases.append(("generated", text, args, False))
+        complete = bool((args.get("copy_from") and args.get("copy_to")) or (args.get("replace") and args.get("values")))
+        if complete and rng.random() < 0.15:     # (without a complete mode nothing is written: not an in-place case)
+            args["_inplace"] = rng.choice(["same", "alias"])
+        cases.append(("generated" if not args.get("_inplace") else "generated-in-place", text, args, False))
     return cases
 
 
@@ -408,6 +420,8 @@ def judge_cli(res, fam, text, args, missing_input, o, model):
         if obs != "help":
             res.fail("corr", "C20:cli:help", inp, "no complete mode given; observed %s %s" % (obs, o["exc"]))
     # ---- correspondence with the dispatch model for the flags of the present tree
+    if args.get("_inplace"):
+        return "observed=%s exc=%s lib=%s/%s (in place: statement only)" % (obs, o["exc"], mode, lk)
     if model == "help":
         ok = obs == "help"
     elif model.startswith("failed "):
